@@ -1,10 +1,7 @@
 NM = "np_misc_h"
 _fixed = [
     ("c30_body_00_end_of_message", "EndOfMessage body (3,3) accepted with ignored body / (3,2) rejected"),
-    ("c30_body_06_server", "Server body (4,4) accepted iff UTF-8 / (4,3)"),
     ("c30_body_08_keep_alive", "KeepAlive body (0,0) / (1,0)"),
-    ("c30_body_12_fixed_key_request", "FixedKeyRequest body (4,4) / (3,3)"),
-    ("c30_body_13_server_deny", "NtpServerDeny body (3,3) accepted iff UTF-8 / (3,2)"),
 ]
 _full = [
     ("c30_full_07_port", "NtsRecord::parse: Port, layout (2,2)"),
@@ -19,11 +16,11 @@ PROP = dict(
         "the 14 private body parsers NtsRecord::parse_<type> on Take(announced length), driven directly through forwarding hooks",
     ],
     bounds="futures polled once with a no-op waker on in-memory readers that are always ready. Fixed-size bodies (Error, Warning, Port): every announced length 0..=65535, 0..=4 available body bytes, all symbolic. "
-           "Variable-size bodies (EndOfMessage, NewCookie, Server, KeepAlive, FixedKeyRequest, NtpServerDeny): one accepted and one rejected (announced length, available bytes) layout per record type with symbolic body bytes (<= 4 bytes). "
+           "Variable-size bodies (EndOfMessage, NewCookie, KeepAlive): one accepted and one rejected (announced length, available bytes) layout per record type with symbolic body bytes (<= 4 bytes). "
            "Whole-record parser NtsRecord::parse: 6 concrete layouts (incl. unknown critical / non-critical types, truncated and oversize bodies) with symbolic body bytes; truncated headers of 0..=3 bytes. "
            "For every accepted record: consumed exactly header + announced body, fields equal the wire bytes, serialize() reproduces the consumed bytes (up to the critical bit of known types and ignored bodies) and parses back to an equal value.",
     outside="Request::parse, KeyExchangeResponse::parse and the 4096-byte cap (c30_msg / c30_cap of the design): NOT decided. One NtsRecord::parse costs ~40 s of symbolic execution and ~5M SAT variables / 26M clauses (its async state machine is a union over 15 sub-parsers, two with 512-byte buffers, which CBMC treats as opaque bytes); the message parsers nest it in a loop, and a single record round trip through NtsRecord::parse with symbolic lengths already runs out of 8 GB. "
-            "The Authentication body parser (same code shape as Server / NtpServerDeny: solver out of memory at 8 GB, 254 s) and NtsRecord::parse on a NewCookie layout (out of memory, 360 s) are NOT decided. The four u16-list body parsers (NextProtocol, AeadAlgorithm, SupportedNextProtocolList, SupportedAlgorithmList: Vec::push on a heap buffer inside a nested async state machine - the solver ran out of 8 GB even for a single id) are only covered through their shared structure with the fixed-size parsers, NOT decided; bodies longer than 4 bytes; announced lengths other than the template values for variable-size records (a symbolic length makes Vec::with_capacity / vec![0; len] symbolic-size objects: out of memory at 8 GB); streams of several records.",
+            "The name body parsers (Server, NtpServerDeny, Authentication: tokio read_to_string + UTF-8 validation), FixedKeyRequest (two vec![0; n] buffers) and NtsRecord::parse on a NewCookie layout are NOT decided: the solver ran out of 8 GB during propositional reduction (119-360 s) although symbolic execution finished; the harnesses exist in c30.rs (c30_body_06/12/13/14, c30_full_05) but are not registered. The four u16-list body parsers (NextProtocol, AeadAlgorithm, SupportedNextProtocolList, SupportedAlgorithmList: Vec::push on a heap buffer inside a nested async state machine - the solver ran out of 8 GB even for a single id) are NOT decided; bodies longer than 4 bytes; announced lengths other than the template values for variable-size records (a symbolic length makes Vec::with_capacity / vec![0; len] symbolic-size objects: out of memory at 8 GB); streams of several records.",
     assumptions=["readers never return Pending or an I/O error"],
     stub_notes=["completed futures and error values are leaked instead of dropped (drop glue only; no behaviour)"],
     harnesses=[
